@@ -110,3 +110,7 @@ func FuzzC07ProxyReply(f *testing.F) { fuzzC07(f, "proxyreply", replySeeds()) }
 func FuzzC07Headers(f *testing.F)    { fuzzC07(f, "headers", headerSeeds()) }
 
 func TestC10(t *testing.T) { RunProp(t, "C10", "writefaults", genWFaultCase, checkC10) }
+
+func TestC09(t *testing.T) { RunProp(t, "C09", "afterclose", genCloseCase, checkC09) }
+
+func TestC20(t *testing.T) { RunProp(t, "C20", "pool", genPoolCase, checkC20) }
